@@ -993,7 +993,8 @@ func ruleIdent2(c *Ctx) {
 								for _, call := range c.allCallsDeep(n) {
 									nm := c.calleeName(call)
 									seen[nm] = true
-									if f, ok := c.calleeObj(call).(*types.Func); ok && d < 2 && f.Pkg() != nil && short(f.Pkg().Path()) == r.sp {
+									// helpers of the same package, or any helper that did not exist at the pinned commit (util.FmtNum)
+									if f, ok := c.calleeObj(call).(*types.Func); ok && d < 2 && f.Pkg() != nil && (short(f.Pkg().Path()) == r.sp || (c.Mod[short(f.Pkg().Path())] != nil && !knownFuncs[qual(f)])) {
 										if hd := c.declOf(f); hd != nil && hd.Body != nil && hd != fd {
 											follow(hd.Body, d+1)
 										}
